@@ -102,6 +102,18 @@ def replay_case(case):
     kinds = cost_kinds(p)
     by = {k[0]: k for k in kinds}
 
+    def used(obj, arity):
+        """The same adapter object after it has been fitted on and asked about OTHER data (two more rows, other values):
+        what it returns for X afterwards must not depend on that."""
+        W = np.vstack([X[::-1] * 2.0 + 1.0, X[:2] - 3.0])
+        try:
+            m = W.shape[0]
+            cut = {2: [0, m], 3: [0, m // 2, m], 4: [0, m // 3, m - m // 3, m]}[arity]
+            obj.fit(W).evaluate(np.array([cut]))
+        except Exception:
+            pass  # whether W itself is acceptable to this scorer is not the point here
+        return obj
+
     def cmp(name, cut, got, want):
         if want is None:
             return
@@ -120,7 +132,7 @@ def replay_case(case):
         if not cuts:
             continue
         try:
-            sc = ChangeScore(mk()).fit(X)
+            sc = used(ChangeScore(mk()), 3).fit(X)
             vals = sc.evaluate(np.array(cuts))
         except RuntimeError:
             continue
@@ -154,7 +166,7 @@ def replay_case(case):
         if not ivs:
             continue
         try:
-            sv = Saving(mk()).fit(X)
+            sv = used(Saving(mk()), 2).fit(X)
             vals = sv.evaluate(np.array(ivs))
         except RuntimeError:
             continue
@@ -181,7 +193,7 @@ def replay_case(case):
         if not cuts:
             continue
         try:
-            sc = LocalAnomalyScore(mk()).fit(X)
+            sc = used(LocalAnomalyScore(mk()), 4).fit(X)
             vals = sc.evaluate(np.array(cuts))
         except RuntimeError:
             continue
